@@ -36,8 +36,13 @@ def rand_faces(rng, n, kind):
         L = float(rng.choice([1.0, 2.0, 10.0, rng.uniform(0.1, 5)])); x0 = float(rng.choice([0.0, -4.0, rng.normal()]))
         return dict(kind='uni', n=n, L=L, x0=x0)
     if kind == 'refined':
-        return dict(kind='refined', n=n, L=float(rng.choice([1.0, 3.0])), ratio=float(rng.choice([2.0, 0.5, 3.0, 1.0])),
-                    a=int(rng.integers(1, 4)), b=int(rng.integers(1, 4)))
+        md = dict(kind='refined', n=n, L=float(rng.choice([1.0, 3.0])), ratio=float(rng.choice([2.0, 0.5, 3.0, 1.0])),
+                  a=int(rng.integers(1, 4)), b=int(rng.integers(1, 4)))
+        md['ab'] = (md['a'], md['b'])              # the proportions as whole numbers (a : b)
+        if rng.random() < 0.35:                    # decimal proportions (0.1 : 0.2, 0.3 : 0.9 ...): not binary fractions
+            ka, kb = int(rng.integers(1, 13)), int(rng.integers(1, 13))
+            md.update(a=ka / 10.0, b=kb / 10.0, ab=(ka, kb))
+        return md
     if kind == 'morphed':
         return dict(kind='morphed', n=n, L=float(rng.choice([1.0, 2.0])), x0=0.0, morph=str(rng.choice(['sq', 'exp', 'lin'])))
     w = 10.0 ** rng.uniform(-1, 0.5, n)
@@ -172,6 +177,26 @@ def bc_for_impl(bc):
     return b
 
 
+def used_scheme(num, msh):
+    """a scheme object with a history: it has already served a discretisation on a companion mesh with the same number of
+    cells, the same origin and the same length but other interior faces (anything a scheme object remembers about a mesh is
+    then stale for `msh`; the model's reconstruction is a function of the mesh it is called with)"""
+    n = msh.ncell
+    if n < 2:
+        return num
+    xf = np.asarray(msh.xf, dtype=float)
+    t = (xf - xf[0]) / (xf[-1] - xf[0])
+    comp = impl.mesh.unimesh(ncell=n, length=msh.length, x0=float(xf[0]))
+    comp.xf = xf[0] + (xf[-1] - xf[0]) * (t + 0.3 * t * (1 - t))
+    comp.xc = comp.calc_centers()
+    comp.length = msh.length
+    zero = {'type': 'dirichlet', 'prim': [0.5]}
+    d0 = impl.modeldisc.fvm(impl.convection.model(1.0), comp, num, bcL=zero, bcR=zero)
+    with np.errstate(all='ignore'):
+        d0.rhs(impl.field.fdata(d0.model, comp, [np.cos(3.0 * comp.xc) + 2.0]))
+    return num
+
+
 def build(cfg):
     """instantiate the real objects: (model, mesh, disc, field)"""
     m = cfg['model']
@@ -186,7 +211,8 @@ def build(cfg):
     else:
         mod = impl.euler.nozzle(section_fn(cfg['section']), gamma=cfg['gamma'])
     msh = make_mesh(cfg['mesh'])
-    disc = impl.modeldisc.fvm(mod, msh, make_scheme(cfg['scheme']), numflux=cfg['flux'],
+    num = used_scheme(make_scheme(cfg['scheme']), msh)
+    disc = impl.modeldisc.fvm(mod, msh, num, numflux=cfg['flux'],
                               bcL=bc_for_impl(cfg['bcL']), bcR=bc_for_impl(cfg['bcR']))
     W = [np.array(w, dtype=float) for w in cfg['prim']]
     Q = mod.prim2cons(W)
